@@ -93,12 +93,12 @@ _HOLDS = re.compile(r"(?:state|action) invariant \d+ holds\.")
 _VIOLATED = re.compile(r"(?:state|action) invariant (\d+) violated")
 
 
-def _query(tool, scratch, name, init, inv, length, next_="Next"):
+def _query(tool, scratch, name, init, inv, length, next_="Next", module=None):
     """One `apalache-mc check`; returns a record.  Raises _Unavailable on timeout / tool error."""
     out_dir = os.path.join(scratch, "out-" + re.sub(r"\W", "_", name))
     cmd = ["timeout", "-k", "5", str(TIMEOUT), tool, "check", "--init=" + init, "--next=" + next_,
            "--inv=" + inv, "--length=%d" % length, "--out-dir=" + out_dir,
-           "--run-dir=" + os.path.join(out_dir, "run"), MODULE + ".tla"]
+           "--run-dir=" + os.path.join(out_dir, "run"), (module or MODULE) + ".tla"]
     env = dict(os.environ)
     env.pop("JAVA_TOOL_OPTIONS", None)
     env["TMPDIR"] = os.path.join(scratch, "tmp")         # the launcher makes its SANY dir there
